@@ -18,11 +18,11 @@ LEVEL = "exploration"
 TECHNIQUE = "save/load differential at the HTTP boundary and on the reconstructed session state, over generated session histories and four restore paths"
 RULE = ("histories = start in {0,1,3,2.5} x dt in {1,.5,.25,.1} x 1-10 steps x per step {constants, points, {}, no body, run-steps(2|3) sharing one settings object} x compress in {False, True} x "
         "restore path in {lazy restore after dropping the instance, /save-state + /load-state, timeout + lazy restore, new server on the directory}; "
-        "plus the adapter layer directly (save_instance / load_instance on states of Python-API sessions with explicit start and dt). "
+        "plus the adapter layer directly (save_instance / load_instance, and save_state / load_state over a directory that already holds an older file of the same instance at the same clock position, on states of Python-API sessions with explicit start and dt). "
         "distinct_nontrivial = distinct (start, dt, settings pattern, compress, path) combinations with at least 2 steps and at least one "
         "step carrying settings.")
 ASSUMPTIONS = ["equality up to one JSON round trip: numeric dict keys are compared as floats, tuples as lists", "the 'lock' flag is not part of the comparison (it is cleared on save by design)"]
-REQUIRED = {"histories": 100, "restores": 100, "state_fields_compared": 500, "post_restore_steps": 100}
+REQUIRED = {"overwrites_of_existing_state_file": 5, "histories": 100, "restores": 100, "state_fields_compared": 500, "post_restore_steps": 100}
 BUDGET_S = {"quick": 110, "thorough": 1500}
 PATHS = ["lazy", "save-load", "timeout", "new-server"]
 
@@ -232,11 +232,27 @@ def run_adapter(case, counters):
         counters["histories"] = counters.get("histories", 0) + 1
         before = copy.deepcopy(b.session_state)
         ad = FileAdapter(case["compress"], tmp)
+        whole = case["vseed"] % 2 == 1     # whole-server API (save_state / load_state) over a directory that already holds an older file of this instance
         try:
-            ad.save_instance(InstanceState(copy.deepcopy(b.session_state), "inst1", datetime.datetime.now(), {"hours": 1}, b.session_state["step"]))
+            real = InstanceState(copy.deepcopy(b.session_state), "inst1", datetime.datetime.now(), {"hours": 1}, b.session_state["step"])
+            if whole:
+                # the older file: another session of the same instance that happens to stand at the same clock position
+                decoy = copy.deepcopy(b.session_state)
+                decoy["equations"] = ["stock"]
+                decoy["settings_log"], decoy["results_log"] = {}, {}
+                ad.save_state([InstanceState(decoy, "inst1", datetime.datetime.now(), {"hours": 2}, decoy["step"]),
+                               InstanceState(copy.deepcopy(decoy), "inst2", datetime.datetime.now(), {"hours": 2}, decoy["step"])])
+                ad.save_state([real])
+                counters["overwrites_of_existing_state_file"] = counters.get("overwrites_of_existing_state_file", 0) + 1
+            else:
+                ad.save_instance(real)
         except Exception as e:
             return dict(kind="save-instance-raised", error="%s: %s" % (type(e).__name__, str(e)[:160]))
-        loaded = ad.load_instance("inst1")
+        if whole:
+            states = [x for x in (ad.load_state() or []) if x is not None and x.instance_id == "inst1"]
+            loaded = states[0] if len(states) == 1 else None
+        else:
+            loaded = ad.load_instance("inst1")
         counters["restores"] = counters.get("restores", 0) + 1
         if loaded is None or loaded.state is None:
             return dict(kind="not-restored", via="adapter")
